@@ -135,6 +135,12 @@ func install(env *stick.Env, rec *recorder) {
 		}
 		return OwnStr(val) + "@" + OwnStr(idx)
 	})
+	flt("flen", func(ctx stick.Context, val stick.Value, args ...stick.Value) stick.Value {
+		if n, err := stick.Len(val); err == nil && val != nil {
+			return n
+		}
+		return len(OwnStr(val))
+	})
 	flt("fid", func(ctx stick.Context, val stick.Value, args ...stick.Value) stick.Value { return val })
 	flt("frepr", func(ctx stick.Context, val stick.Value, args ...stick.Value) stick.Value { return Repr(val) })
 
